@@ -19,7 +19,7 @@ func TestVerif_C12_Storage(t *testing.T) {
 	seed := kit.Seed(12)
 	shard, shards := kit.Shard()
 	r := kit.NewResult(t, "c12-storage", seed,
-		"generated worlds (<=6 namespaces on <=3 levels, some with their own shamir seal; sibling, multi-segment and equally named mounts of the recording backend / kv / auth type; remounts inside and across namespaces, unmount + re-use of the path, seal/unseal cycles) serving a request mix of hostile storage calls made by a backend on its req.Storage (.., absolute, //, encoded, other mounts' uuids and real keys, core keys, long), hostile data paths, kv, login, cubbyhole and foreign-token requests in every namespace spelling (header / path / split); every physical operation of a request is classified against the storage prefixes read from the running router and every response is scanned for data or names written through another mount; a request is non-trivial when its client-chosen key resolves outside the mount prefix, when it is served while a namespace is sealed, when it uses a token of another namespace, or when it follows a remount / path re-use")
+		"generated worlds (<=6 namespaces on <=3 levels, some with their own shamir seal; sibling, multi-segment and equally named mounts of the recording backend / kv / auth type; remounts inside and across namespaces, unmount + re-use of the path, seal/unseal cycles of single namespaces, restarts of the core, and in every second world mounts attempted inside the path of a sealed namespace) serving a request mix of hostile storage calls made by a backend on its req.Storage (.., absolute, //, encoded, other mounts' uuids and real keys, core keys, long), hostile data paths, kv, login, cubbyhole and foreign-token requests in every namespace spelling (header / path / split); every physical operation of a request is classified against the storage prefixes read from the running router and every response is scanned for data or names written through another mount; a request is non-trivial when its client-chosen key resolves outside the mount prefix, when it is served while a namespace is sealed, when it uses a token of another namespace, or when it follows a remount / path re-use")
 	defer r.Write(t)
 	r.Note("observation outside C12: when the unseal of a namespace fails in post-unseal (e.g. because of the mount conflict above) the rollback re-seals it through SealNamespace with the root-namespace active context, which stores the namespace's record in the root namespace's store; a later start of the core then fails with 'error loading initial namespaces: can't insert namespace with missing parent'; worlds in which a namespace unseal failed are therefore not restarted")
 	r.Note("observation outside C12: unsealNamespace reloads only the direct children of the unsealed namespace (it passes the namespace-scoped view as the barrier to loadNamespacesRecursive), deeper namespaces stay unknown to the core until a full reload")
@@ -41,19 +41,24 @@ func TestVerif_C12_Storage(t *testing.T) {
 			break
 		}
 	}
-	r.Require("phys_ops_checked", 3000)
-	r.Require("phys_ops_inside_mount", 500)
-	r.Require("hostile_escape_attempts", 150)
-	r.Require("hostile_escape_rejected", 100)
-	r.Require("hostile_calls_executed_inside_mount", 150)
-	r.Require("own_canaries_read_back", 100)
-	r.Require("remounts", 1)
-	r.Require("mounts_on_previously_used_path", 1)
-	r.Require("fresh_mount_probes", 1)
-	r.Require("requests_into_sealed_namespace", 5)
-	r.Require("foreign_token_requests", 10)
-	r.Require("worlds_with_equal_mount_paths_in_two_namespaces", 1)
-	r.Require("core_restarts", 1)
+	// minimums: about half of what one quick seed shows (the kit enforces a third of them)
+	r.Require("phys_ops_checked", 7000)
+	r.Require("phys_ops_inside_mount", 2500)
+	r.Require("mount_prefix_invariant_checks", 10000)
+	r.Require("hostile_escape_attempts", 600)
+	r.Require("hostile_escape_rejected", 600)
+	r.Require("hostile_calls_executed_inside_mount", 700)
+	r.Require("own_canaries_read_back", 200)
+	r.Require("remounts", 60)
+	r.Require("remounts_across_namespaces", 10)
+	r.Require("mounts_on_previously_used_path", 40)
+	r.Require("fresh_mount_probes", 200)
+	r.Require("requests_into_sealed_namespace", 300)
+	r.Require("foreign_token_requests", 200)
+	r.Require("worlds_with_equal_mount_paths_in_two_namespaces", 5)
+	r.Require("sibling_namespaces_with_prefix_related_names", 5)
+	r.Require("core_restarts", 10)
+	r.Require("shadow_mount_probes", 15)
 }
 
 type c12StorageRun struct {
